@@ -14,8 +14,10 @@ OLD = [
 
 def expected_line(e):
     parts = []
-    for k, v, enc in e.fields:
+    for j, (k, v, enc) in enumerate(e.fields):
         if k in ('pid', 'peer_pid'):
+            if j == len(e.fields) - 1:
+                parts.append('%s=%s' % (k, v))      # a pid that ends the record stays (the pattern wants a blank after it)
             continue
         ev = G.enc_val(k, v, enc)
         if not ev.startswith('"') and enc != 'bare':
@@ -195,7 +197,8 @@ def run(ctx):
     if broken and not any(c for _, c, _ in ctx.violations):
         ctx.violation('obligation or correspondence broken: ' + '; '.join(broken)[:600], {'broken': broken}, concrete=False)
     ctx.cov['broken'] += broken
-    ctx.assumptions += ['journald JSON input is exercised only through the bundled sample (GetJournalctlLogs is not modelled)',
+    ctx.assumptions += ['a pid or peer_pid that is the last field of a record (dbus-daemon messages without peer_label) is not stripped by the clean-up pattern; such records are judged with that field kept and are not repeated with another pid',
+                        'journald JSON input is exercised only through the bundled sample (GetJournalctlLogs is not modelled)',
                         'lines above 64 MiB are outside the scanner limit set by the fix commit']
 
 
